@@ -90,7 +90,8 @@ Proof. intros e peek compress decompress HE. exact (ext_sniff_agree_pk the_facts
 
 (* All ways of naming the source return what the adapter's reader yields on the plain content p:
    path with the codec's extension; path whose name reveals nothing; adapter class handed an open file object;
-   RecordReader(fileobj=...) / stdin where codec AND container come from the leading bytes.
+   RecordReader(fileobj=...) / stdin where codec AND container come from the leading bytes; standard input named
+   through an explicit adapter scheme ("stream://-", "avro://": container from the scheme, codec from the bytes).
    PARTIAL: holds under [codec_hyps], whose first clause (the first peek() returns at least the leading 19 bytes)
    is more than the io contract promises -- see C11_access_paths_agree_refuted. *)
 Theorem C11_access_paths_agree_partial :
@@ -102,7 +103,8 @@ Theorem C11_access_paths_agree_partial :
   (forall path, ext_codec the_facts e path = ExtNone ->
      read_path the_facts e peek decompress R parse k path (compress c p) = Read k (parse k p)) /\
   read_fileobj_as the_facts e peek decompress R parse k (compress c p) = Read k (parse k p) /\
-  read_fileobj the_facts e peek decompress R parse (compress c p) = Read k (parse k p).
+  read_fileobj the_facts e peek decompress R parse (compress c p) = Read k (parse k p) /\
+  read_stdin_as the_facts e peek decompress R parse k (compress c p) = Read k (parse k p).
 Proof. intros e peek compress decompress R parse HE. exact (access_paths_agree the_facts eq_refl e peek compress decompress R parse HE). Qed.
 
 (* The same statement with only what io.BufferedReader.peek guarantees (a non-empty prefix) is FALSE of the faithful
